@@ -4,6 +4,7 @@
 set -u
 dir="$1"; shift
 wt=/tmp/vwt2
+[ -d "$wt" ] || git -C /repo worktree add -q --detach "$wt" HEAD   # scratch worktree outside /repo and /verif; remove with: git -C /repo worktree remove --force "$wt"
 export CARGO_NET_OFFLINE=true
 cd "$wt" && git checkout -q -- . && git checkout -q --detach "$(git -C /repo rev-parse HEAD)" && git apply "$dir/patch.diff" || { echo "patch does not apply"; exit 2; }
 mkdir -p /tmp/bvroot/evidence /tmp/bvroot/harness; for f in oracle KNOWN_FINDINGS.json known.d; do ln -sfn /verif/$f /tmp/bvroot/$f; done
